@@ -1,6 +1,7 @@
 package rhplab
 
 import (
+	"errors"
 	"slices"
 	"sync"
 	"sync/atomic"
@@ -63,6 +64,7 @@ type Event struct {
 	DataLen   int
 	Expiry    uint64
 	UnlockSeq uint64 // Unlock: Seq of the matching Lock
+	Injected  bool   // the error was injected by the proxy; the inner store was not called
 }
 
 // Persisting reports whether the event is a call that persists a revision.
@@ -84,6 +86,11 @@ type Log struct {
 	// Perturb, if set, is called on the handler goroutine before every inner
 	// call (schedule perturbation at real suspension points).
 	Perturb atomic.Pointer[func(kind string)]
+
+	// Fault, if set, is asked before every persisting call (the five revision
+	// persisting methods and DebitAccount); a non-nil error is returned to the
+	// server in place of calling the inner store (a failing store).
+	Fault atomic.Pointer[func(kind string) error]
 }
 
 func (l *Log) add(e Event) uint64 {
@@ -95,6 +102,37 @@ func (l *Log) add(e Event) uint64 {
 	l.evs = append(l.evs, e)
 	l.mu.Unlock()
 	return e.Seq
+}
+
+func (l *Log) fault(kind string) error {
+	if f := l.Fault.Load(); f != nil {
+		return (*f)(kind)
+	}
+	return nil
+}
+
+// ErrInjected is what an injected store fault returns to the server.
+var ErrInjected = errors.New("verif: injected store failure")
+
+// FailNext arms a one-shot fault: the next persisting call whose kind is in
+// kinds (any persisting call if empty) fails. The returned function disarms it
+// and reports whether it fired.
+func (l *Log) FailNext(kinds ...string) (disarm func() bool) {
+	var fired atomic.Bool
+	fn := func(kind string) error {
+		if len(kinds) > 0 && !slices.Contains(kinds, kind) {
+			return nil
+		}
+		if fired.CompareAndSwap(false, true) {
+			return ErrInjected
+		}
+		return nil
+	}
+	l.Fault.Store(&fn)
+	return func() bool {
+		l.Fault.Store(nil)
+		return fired.Load()
+	}
 }
 
 func (l *Log) perturb(kind string) {
@@ -185,6 +223,11 @@ func (c *RecContractor) AddV2Contract(ts rhp.TransactionSet, usage proto4.Usage)
 			ev.ContractID = txn.V2FileContractID(txn.ID(), 0)
 		}
 	}
+	if ferr := c.Log.fault(EvAddContract); ferr != nil {
+		ev.Err, ev.Injected = errStr(ferr), true
+		c.Log.add(ev)
+		return ferr
+	}
 	err := c.Inner.AddV2Contract(ts, usage)
 	ev.Err = errStr(err)
 	c.Log.add(ev)
@@ -208,6 +251,11 @@ func (c *RecContractor) RenewV2Contract(ts rhp.TransactionSet, usage proto4.Usag
 			}
 		}
 	}
+	if ferr := c.Log.fault(EvRenewContract); ferr != nil {
+		ev.Err, ev.Injected = errStr(ferr), true
+		c.Log.add(ev)
+		return ferr
+	}
 	err := c.Inner.RenewV2Contract(ts, usage)
 	ev.Err = errStr(err)
 	c.Log.add(ev)
@@ -218,6 +266,11 @@ func (c *RecContractor) RenewV2Contract(ts rhp.TransactionSet, usage proto4.Usag
 func (c *RecContractor) ReviseV2Contract(id types.FileContractID, rev types.V2FileContract, roots []types.Hash256, usage proto4.Usage) error {
 	c.Log.perturb(EvRevise)
 	ev := Event{Kind: EvRevise, ContractID: id, Revision: rev, Roots: slices.Clone(roots), Usage: usage}
+	if ferr := c.Log.fault(EvRevise); ferr != nil {
+		ev.Err, ev.Injected = errStr(ferr), true
+		c.Log.add(ev)
+		return ferr
+	}
 	err := c.Inner.ReviseV2Contract(id, rev, roots, usage)
 	ev.Err = errStr(err)
 	c.Log.add(ev)
@@ -252,6 +305,11 @@ func (c *RecContractor) AccountBalances(as []proto4.Account) ([]types.Currency, 
 func (c *RecContractor) CreditAccountsWithContract(ds []proto4.AccountDeposit, id types.FileContractID, rev types.V2FileContract, usage proto4.Usage) ([]types.Currency, error) {
 	c.Log.perturb(EvCreditAccounts)
 	ev := Event{Kind: EvCreditAccounts, ContractID: id, Revision: rev, Deposits: slices.Clone(ds), Usage: usage}
+	if ferr := c.Log.fault(EvCreditAccounts); ferr != nil {
+		ev.Err, ev.Injected = errStr(ferr), true
+		c.Log.add(ev)
+		return nil, ferr
+	}
 	bs, err := c.Inner.CreditAccountsWithContract(ds, id, rev, usage)
 	ev.Balances = slices.Clone(bs)
 	ev.Err = errStr(err)
@@ -262,6 +320,10 @@ func (c *RecContractor) CreditAccountsWithContract(ds []proto4.AccountDeposit, i
 // DebitAccount implements rhp.Contractor.
 func (c *RecContractor) DebitAccount(a proto4.Account, usage proto4.Usage) error {
 	c.Log.perturb(EvDebit)
+	if ferr := c.Log.fault(EvDebit); ferr != nil {
+		c.Log.add(Event{Kind: EvDebit, Accounts: []proto4.Account{a}, Usage: usage, Err: errStr(ferr), Injected: true})
+		return ferr
+	}
 	err := c.Inner.DebitAccount(a, usage)
 	c.Log.add(Event{Kind: EvDebit, Accounts: []proto4.Account{a}, Usage: usage, Err: errStr(err)})
 	return err
@@ -279,6 +341,11 @@ func (c *RecContractor) PoolBalances(ps []proto4.Account) ([]types.Currency, err
 func (c *RecContractor) CreditPoolsWithContract(ds []proto4.AccountDeposit, id types.FileContractID, rev types.V2FileContract, usage proto4.Usage) ([]types.Currency, error) {
 	c.Log.perturb(EvCreditPools)
 	ev := Event{Kind: EvCreditPools, ContractID: id, Revision: rev, Deposits: slices.Clone(ds), Usage: usage}
+	if ferr := c.Log.fault(EvCreditPools); ferr != nil {
+		ev.Err, ev.Injected = errStr(ferr), true
+		c.Log.add(ev)
+		return nil, ferr
+	}
 	bs, err := c.Inner.CreditPoolsWithContract(ds, id, rev, usage)
 	ev.Balances = slices.Clone(bs)
 	ev.Err = errStr(err)
